@@ -747,15 +747,34 @@ def subst_locals(func_node: ast.AST, expr: ast.AST, depth: int = 3) -> ast.AST:
         if isinstance(n, (ast.For, ast.AsyncFor, ast.While)):
             for x in ast.walk(n):
                 in_loop.add(id(x))
+    def _chain_value(n, name):
+        """(conditional expression, number of assignments) for an if / elif ... / else chain every branch of which assigns `name`
+        exactly once, at its top level"""
+        if any(isinstance(x, ast.Name) and x.id == name for x in ast.walk(n.test)):
+            return None
+        a = _one_assign(n.body, name)
+        if a is None or not n.orelse:
+            return None
+        if len(n.orelse) == 1 and isinstance(n.orelse[0], ast.If) and _one_assign(n.orelse, name) is None:
+            sub = _chain_value(n.orelse[0], name)
+            if sub is None:
+                return None
+            return ast.IfExp(test=n.test, body=a, orelse=sub[0]), 1 + sub[1]
+        b = _one_assign(n.orelse, name)
+        if b is None:
+            return None
+        return ast.IfExp(test=n.test, body=a, orelse=b), 2
+
+    elif_members = {id(n.orelse[0]) for n in ast.walk(func_node) if isinstance(n, ast.If) and len(n.orelse) == 1 and isinstance(n.orelse[0], ast.If)}
     for n in ast.walk(func_node):
-        if isinstance(n, ast.If) and n.orelse and id(n) not in in_loop:
+        if isinstance(n, ast.If) and n.orelse and id(n) not in in_loop and id(n) not in elif_members:
             for st in n.body:
                 if isinstance(st, ast.Assign) and len(st.targets) == 1 and isinstance(st.targets[0], ast.Name):
                     name = st.targets[0].id
-                    if counts.get(name) == 2 and name not in params and name not in single:
-                        a, b = _one_assign(n.body, name), _one_assign(n.orelse, name)
-                        if a is not None and b is not None and not any(isinstance(x, ast.Name) and x.id == name for x in ast.walk(n.test)):
-                            single[name] = ast.IfExp(test=n.test, body=a, orelse=b)
+                    if name not in params and name not in single and counts.get(name, 0) >= 2:
+                        cv = _chain_value(n, name)
+                        if cv is not None and cv[1] == counts.get(name):
+                            single[name] = cv[0]
 
     class _S(ast.NodeTransformer):
         def visit_Name(self, node):
